@@ -7,6 +7,7 @@ import warnings
 
 import numpy
 
+import c02_special
 import rules
 from common import Err
 
@@ -27,7 +28,11 @@ TRUSTED = ["harness/rules.py: compiler from rule-system terms to real Variable s
 ASSUMPTIONS = ["sentence 2 is read as: every retained value is what a fresh simulation computes from the inputs and SOME of "
                "the other readable values (the witness: the untainted cache content when its computation started); the "
                "all-values and the inputs-only readings are false for upstream's spiral heuristic by design (DESIGN.md C02 Scope)",
-               "generated values stay below 2^22 (exact in int32/float32); inexact cases are discarded and counted"]
+               "generated values stay below 2^22 (exact in int32/float32); inexact cases are discarded and counted",
+               "special numeric values (64-bit integers above 2^31, float64 results that are not float32 values, -0.0, "
+               "inf, NaN) and daily histories of more than 4096 days are exercised by an oracle-only stream "
+               "(harness/c02_special.py: answers compared bit for bit between the given order, a permuted order, a repeated "
+               "request and a fresh simulation; CSkip on the Coq side)"]
 
 RANKED = {"nvars": (3, 7), "bad": 0.0, "badreq": 0.0, "nparams": 2, "neutral": 0.03, "nreq": (4, 8)}
 
@@ -119,6 +124,8 @@ def generate(rng, tier):
     cases = []
     for k in range(n):
         cases.append(spiral_case(rng) if k % 2 else ranked_case(rng))
+    for k in range(max(72, n // 10)):
+        cases.append(c02_special.gen(rng, k))     # special values / long daily histories (oracle only)
     return cases
 
 
@@ -166,6 +173,8 @@ def _fresh(case, switches=None):
 
 
 def run_impl(case):
+    if case.get("special"):
+        return c02_special.run(case)
     main = rules.run_case(_plain(case))
     if main == "skip":
         _SKIP.add(_key(case))
@@ -263,16 +272,26 @@ def _retained_runs(case):
 
 
 def coq_case(case):
+    if case.get("special"):
+        return "CSkip"
     return rules.coq_case(_plain(case), skip=_key(case) in _SKIP)
 
 
 def obs_for_coq(case, obs):
+    if case.get("special"):
+        return "skip"
     if obs == "skip" or isinstance(obs, Err):
         return obs
     return obs["main"]
 
 
 def oracle(case, obs):
+    if case.get("special"):
+        if isinstance(obs, Err):
+            return f"special: the driver failed: {obs.msg}"
+        if obs["stack"] != 0:
+            return "stack: evaluation stack not empty after the requests"
+        return ("special: " + "; ".join(obs["special"][:2])) if obs["special"] else None
     if obs == "skip" or isinstance(obs, Err):
         return None
     main, extra = obs["main"], obs["extra"]
@@ -298,10 +317,14 @@ def oracle(case, obs):
 
 
 def nontrivial(case, obs):
+    if case.get("special"):
+        return not isinstance(obs, Err) and obs["ran"] > 0
     return obs != "skip" and not isinstance(obs, Err) and any(len(o[2]) > 0 for o in obs["main"])
 
 
 def classify(case, obs):
+    if case.get("special"):
+        return "special:" + case["special"]
     if obs == "skip":
         return "skipped-inexact"
     if isinstance(obs, Err):
@@ -310,6 +333,8 @@ def classify(case, obs):
 
 
 def neighbours(case, rng):
+    if case.get("special"):
+        return [c02_special.gen(rng, 1 if case["special"] == "values" else 12) for _ in range(6)]
     out = []
     for _ in range(6):
         out.append(spiral_case(rng) if case.get("stream", "").startswith("spiral") else ranked_case(rng))
